@@ -99,6 +99,29 @@ pub fn t_builders(data: &[u8], ctx: &mut Ctx) -> CheckResult {
             let got = tx.verify_transaction_signature(&access);
             vensure!(got == expect, if expect { "builder-sign-then-verify-fails" } else { "builder-insufficient-verifies" }, "construct::{kind}.sign({sname}): verify {got}, reference {expect}");
             ctx.class(if expect { "signed-verifies" } else { "signed-insufficient" });
+            // the header of a prepared transaction is public: when it is adjusted before signing, the
+            // signatures must still be over the digest of exactly the header that is emitted
+            let mut pre2 = pre.clone();
+            pre2.header.nonce = Nonce::from(nonce.wrapping_add(1));
+            if nonce % 2 == 1 {
+                pre2.header.energy_amount = Energy::from(u64::from(pre2.header.energy_amount).wrapping_add(1));
+            }
+            let hdr2 = Hdr::of_v0(&pre2.header);
+            let digest2 = digest_v0(&hdr2, &expected_payload);
+            let tx2 = match &signer {
+                SignerKind::AccountKeys(k) => pre2.sign(k),
+                SignerKind::Map(m) => pre2.sign(m),
+            };
+            vensure!(Hdr::of_v0(&tx2.header) == hdr2, "builder-sign-header", "sign changed the adjusted header");
+            let sigs2 = from_sig(&tx2.signature);
+            let got2 = tx2.verify_transaction_signature(&access);
+            vensure!(got2 == reference_accepts(&signer_acc.model, &digest2, &sigs2), "builder-adjusted-header-verify", "construct::{kind}: verify {got2} disagrees with the reference on the emitted header");
+            vensure!(
+                got2 == expect,
+                "builder-adjusted-header-sign",
+                "construct::{kind}.sign({sname}) after adjusting the prepared header: verify {got2}, but the same signer gives {expect} on the unadjusted one (signatures are not over the digest of the emitted header)"
+            );
+            ctx.class("adjusted-header-signed");
         }
         1 => {
             ctx.class("mode:send");
